@@ -136,4 +136,43 @@ def r7e_entry_or_insert(text, log):
             return text
 
 
-RULES = {"R4h": r4h_iter_take, "R4j": r4j_vec_value_for, "R7e": r7e_entry_or_insert}
+
+def r7e_entry_or_insert_stmt(text, log):
+    """R7e (statement form)   `M.entry(K).or_insert(V);` as an expression statement whose value is discarded
+        ->  `vx_entry_or_insert_drop(&mut M, K, V);`
+    M is a chain of identifiers and field accesses starting a statement.  The unit supplies the `external_body` function with
+    body `m.entry(k).or_insert(v);` and the assumed std contract: key present -> map unchanged; absent -> inserted."""
+    while True:
+        st = sig(lex(text))
+        done = True
+        for i, t in enumerate(st):
+            if t.kind != "ident" or (i > 0 and st[i - 1].text not in (";", "{", "}")):
+                continue
+            j = i
+            while j + 2 < len(st) and st[j].kind == "ident" and st[j + 1].text == "." and st[j + 2].kind == "ident" and st[j + 2].text != "entry":
+                j += 2
+            if not (j + 3 < len(st) and st[j].kind == "ident" and st[j + 1].text == "." and st[j + 2].text == "entry" and st[j + 3].text == "("):
+                continue
+            kc = match_close(st, j + 3)
+            if [x.text for x in st[kc + 1:kc + 4]] != [".", "or_insert", "("]:
+                continue
+            vc = match_close(st, kc + 3)
+            if vc + 1 >= len(st) or st[vc + 1].text != ";":
+                continue
+            m_txt = span_text(text, st, i, j + 1)
+            k_txt = span_text(text, st, j + 4, kc)
+            v_txt = span_text(text, st, kc + 4, vc)
+            new = "vx_entry_or_insert_drop(&mut %s, %s, %s)" % (m_txt, k_txt, v_txt)
+            text = text[:t.start] + new + text[st[vc].end:]
+            log["R7e entry-or_insert statement outline"] = log.get("R7e entry-or_insert statement outline", 0) + 1
+            done = False
+            break
+        if done:
+            return text
+
+
+def r7e_both(text, log):
+    return r7e_entry_or_insert_stmt(r7e_entry_or_insert(text, log), log)
+
+
+RULES = {"R4h": r4h_iter_take, "R4j": r4j_vec_value_for, "R7e": r7e_both}
